@@ -131,6 +131,16 @@ def main():
                            {"kind": "witness", "witness": fid, "detail": detail,
                             "replay_cmd": "HOME=$(mktemp -d) PYTHONPATH=/repo /venv/bin/python corpus/witnesses.py %s" % fid}, True))
 
+    # 2b. probes of open findings outside every stream's alphabet (informational: confirms the finding is still there)
+    finding_probes = {}
+    import witnesses as _w
+    for kk in known:
+        if kk["id"] in getattr(_w, "FINDINGS", {}):
+            try:
+                finding_probes[kk["id"]] = _w.FINDINGS[kk["id"]][1]()
+            except Exception as e:  # noqa
+                finding_probes[kk["id"]] = (False, "probe raised %s: %s" % (type(e).__name__, e))
+
     # 3. correspondence + direct oracle -----------------------------------------------------------
     coverage = {"streams": {}}
     evaluations = 0
@@ -207,6 +217,7 @@ def main():
             "input_distribution": dict(sorted(tagcount.items())),
             "regression_witnesses": [{"id": f, "held": h, "detail": d} for f, h, d in wit_ran],
             "known_finding_hits": known_hits,
+            "known_finding_probes": {k: {"reproduces": v[0], "detail": v[1]} for k, v in finding_probes.items()},
             "exhaustive": False,
         },
         "assumptions": spec["assumptions"],
@@ -217,6 +228,8 @@ def main():
 
     for kk in known:
         print("KNOWN-FINDING: property=%s %s %s" % (prop, kk["id"], kk["what"]))
+        if kk["id"] in finding_probes and not finding_probes[kk["id"]][0]:
+            print("note: listed finding %s did not reproduce on this tree (%s)" % (kk["id"], finding_probes[kk["id"]][1]))
     if violations:
         # a concrete failing input first, if there is one
         violations.sort(key=lambda v: not v[2])
